@@ -1,43 +1,62 @@
 ------------------------------- MODULE Indexer -------------------------------
 (***************************************************************************)
 (* Control state of ImageD11.indexing.indexer: find / scorethem /           *)
-(* score_all_pairs (indexing.py:600-872).  The numeric sub-steps            *)
+(* score_all_pairs and the pass loop of indexing.index / do_index           *)
+(* (indexing.py:575-872, 1265-1431).  The numeric sub-steps                 *)
 (* (unitcell.orient, cImageD11.score, score_and_refine, getind) are         *)
 (* abstract: a hit <<i,j>> proposes a candidate orientation Cand[i][j]      *)
 (* (0 = the pair gives nothing useful), a candidate c has a score           *)
-(* Score[c] (peaks on rings it indexes) and indexes the peak set Idx[c].    *)
-(* The trace specification binds these to the values logged from real runs. *)
+(* (peaks it indexes at the tolerance of the pass) and indexes the peak set *)
+(* Idx[c].  The trace specification binds these to the values logged from   *)
+(* real runs (and the harness recomputes those values with its own          *)
+(* arithmetic).                                                             *)
 (*                                                                         *)
 (* variables  ga[p]  grain of each peak (-1 none; accepted grains are       *)
-(*                   numbered from 1), ubis (accepted candidates, in order),*)
+(*                   numbered from 1), ubis (accepted <<candidate, pass>>,  *)
+(*                   in order),                                             *)
 (*            hits (the hit list of the current pair, as a set: the order   *)
 (*            in which find() produced it is any order, so any element may  *)
 (*            be popped next; `top` is the hit being examined),             *)
-(*            pairs (ring pairs still to try),                              *)
+(*            pairs (ring pairs still to try in this pass),                 *)
 (*            cur (ring pair being scored or <<>>), ng (grains accepted in  *)
-(*            the current scorethem call)                                   *)
-(* actions    Find (hit list from unassigned peaks of the two rings), PopHit,*)
+(*            the current scorethem call), pass (index() / do_index() run   *)
+(*            the pair loop once per (minpks, hkl_tol) setting, strict      *)
+(*            first; ga / ubis persist), ntried (pairs tried in this pass)  *)
+(* actions    Find (hit list from unassigned peaks of the two rings:        *)
+(*            ALLHITS = every pair, the cosine_tol < 0 branch; otherwise    *)
+(*            ONE partner per ring-1 peak, the closest-angle branch),       *)
+(*            PopHit,                                                       *)
 (*            PopSkip (a peak already assigned, or i = j), PopLow (score    *)
 (*            <= minpks), PopReject (not unique enough), PopAccept,         *)
-(*            EndScore (hits exhausted or ng = max_grains), NextPair        *)
-(* checked    GaRange, AcceptedScore (score > minpks at acceptance),        *)
-(*            GrainCap (ng <= max_grains in one scorethem call), NoRepeat   *)
-(*            (a candidate is never accepted twice when UNIQ >= 0),         *)
-(*            OwnPeaksKept (peaks of an accepted grain keep a grain),       *)
-(*            Termination (liveness, under WF: every ring pair is tried     *)
-(*            and the run ends), Completeness (at the end every TRUE        *)
-(*            candidate that has a hit between two peaks only it indexes    *)
-(*            is accepted) on the ideal instance                            *)
+(*            EndScore (hits exhausted or ng = max_grains), NextPass        *)
+(* checked    GaRange, AcceptedScore (score > the minimum in force at       *)
+(*            acceptance), GrainCap (ng <= max_grains in one scorethem      *)
+(*            call), NoRepeat (a lattice is never accepted twice, also not  *)
+(*            in a later pass), OwnPeaksKept (peaks of an accepted grain    *)
+(*            keep a grain), PairCap (n = NCAP stops the pair loop after    *)
+(*            NCAP + 1 pairs), Termination (liveness, under WF: every ring  *)
+(*            pair of every pass is tried and the run ends), Completeness   *)
+(*            (at the end every TRUE candidate that scores above the        *)
+(*            minimum of some pass and has a hit on a permitted ring pair   *)
+(*            that only it explains is accepted) on the ideal instance when *)
+(*            the pair loop is not cut short                                *)
+(* bounds     8 peaks, 2 rings, 5 candidates, <= 2 passes; cfgs: _q / _t    *)
+(*            (closest, one pass), _2p (strict then loose), _all (ALLHITS), *)
+(*            _r1 (rings_to_use = {1}), _cap (n = 1), _noisy / _noisy_t     *)
 (***************************************************************************)
 EXTENDS Integers, Sequences, FiniteSets, TLC
 
 CONSTANTS NOISY,       \* FALSE: ideal instance (Completeness asserted); TRUE: adds a spurious high-score candidate
-          PAIRS,       \* the ring pairs score_all_pairs will try (cfg: PAIRS <- PAIRS_all / PAIRS_cross)
+          PAIRS,       \* the ring pairs score_all_pairs will try (cfg: PAIRS <- PAIRS_all / PAIRS_cross / PAIRS_r1)
           NP,          \* peaks 1..NP
           NR,          \* rings 1..NR
           NC,          \* candidates 1..NC
           MINPKS, MAXGRAINS,
-          UNIQ_NUM, UNIQ_DEN     \* uniqueness threshold as a fraction
+          UNIQ_NUM, UNIQ_DEN,    \* uniqueness threshold as a fraction
+          NPASS,       \* 1, or 2: a strict pass (scores ScoreStrict, minimum MINPKS) then a loose one (Score, MINPKS2)
+          MINPKS2,
+          NCAP,        \* 0: all pairs; n > 0: score_all_pairs(n = NCAP) (the loop breaks once k > n)
+          ALLHITS      \* TRUE: find offers every pair (cosine_tol < 0); FALSE: one partner per first peak
 
 Peaks == 1..NP
 \* ---- the abstract instance (defined here because cfg files cannot hold functions) --------------
@@ -49,38 +68,53 @@ Ring == <<1, 2, 1, 2, 1, 2, 1, 2>>
 \* rejected as not unique enough once A holds its peaks
 Idx == << {1, 2, 5}, {3, 4, 6}, {1, 2, 5}, {1, 4}, {7, 8, 1, 2, 5} >>
 Score == << 3, 3, 3, 2, 5 >>
+\* at the strict tolerance of a first pass grain B loses a peak: found only in the loose pass
+ScoreStrict == << 3, 2, 3, 1, 5 >>
 True_ == << TRUE, TRUE, TRUE, FALSE, FALSE >>
 Class == << 1, 2, 1, 3, 4 >>
 Cand(i, j) == IF {i, j} = {7, 8} THEN (IF NOISY THEN 5 ELSE 0)
               ELSE IF {i, j} \subseteq Idx[1] THEN (IF 5 \in {i, j} THEN 3 ELSE 1)
               ELSE IF {i, j} \subseteq Idx[2] THEN 2
               ELSE IF {i, j} \subseteq Idx[4] THEN 4 ELSE 0
-ASSUME NP = 8 /\ NR = 2 /\ NC = 5
+ASSUME NP = 8 /\ NR = 2 /\ NC = 5 /\ NPASS \in 1..2 /\ NCAP \in Nat
 
-VARIABLES ga, ubis, hits, top, pairs, cur, ng
-vars == <<ga, ubis, hits, top, pairs, cur, ng>>
+VARIABLES ga, ubis, hits, top, pairs, cur, ng, pass, ntried
+vars == <<ga, ubis, hits, top, pairs, cur, ng, pass, ntried>>
 
 PAIRS_all == {<<r1, r2>> : r1 \in 1..NR, r2 \in 1..NR}
 PAIRS_cross == {<<1, 2>>, <<2, 1>>}
+PAIRS_r1 == {<<1, 1>>}
 AllPairs == PAIRS
+MinP(p) == IF p = 1 THEN MINPKS ELSE MINPKS2
+ScoreAt(c, p) == IF NPASS = 2 /\ p = 1 THEN ScoreStrict[c] ELSE Score[c]
 Init == /\ ga = [p \in Peaks |-> -1]
         /\ ubis = <<>> /\ hits = {} /\ top = <<>>
-        /\ pairs = AllPairs /\ cur = <<>> /\ ng = 0
+        /\ pairs = AllPairs /\ cur = <<>> /\ ng = 0 /\ pass = 1 /\ ntried = 0
 
 \* find(): any order of the hits between unassigned peaks of the two rings
 \* the ideal instance uses peaks 1..6 (grains A, B); the noisy one peaks {1,2,5,7,8} (grain A + two strays)
 Active == IF NOISY THEN {1, 2, 5, 7, 8} ELSE 1..6
-HitSet(r1, r2) == {<<i, j>> \in Active \X Active : Ring[i] = r1 /\ Ring[j] = r2 /\ ga[i] = -1 /\ ga[j] = -1}
-Find == /\ cur = <<>> /\ pairs # {}
+Free(r) == {i \in Active : Ring[i] = r /\ ga[i] = -1}
+\* cosine_tol < 0: every pair of unassigned peaks of the two rings may come out (a superset of the matching ones)
+HitSetAll(r1, r2) == {Free(r1) \X Free(r2)}
+\* cosine_tol > 0: each ring-1 peak gets the ONE ring-2 peak whose angle matches an allowed angle best (any of those
+\* that match when several do); a peak without a matching partner gives no hit
+Partners(i, r2) == {j \in Free(r2) : j # i /\ Cand(i, j) # 0}
+HitSetClosest(r1, r2) ==
+   LET I == {i \in Free(r1) : Partners(i, r2) # {}}
+   IN {{<<i, f[i]>> : i \in I} : f \in {g \in [I -> Active] : \A i \in I : g[i] \in Partners(i, r2)}}
+HitSets(r1, r2) == IF ALLHITS THEN HitSetAll(r1, r2) ELSE HitSetClosest(r1, r2)
+Capped == NCAP > 0 /\ ntried > NCAP
+Find == /\ cur = <<>> /\ pairs # {} /\ ~Capped
         /\ \E pr \in pairs :
              /\ cur' = pr /\ pairs' = pairs \ {pr}
-             /\ hits' = HitSet(pr[1], pr[2])
-        /\ ng' = 0 /\ UNCHANGED <<ga, ubis, top>>
+             /\ \E hs \in HitSets(pr[1], pr[2]) : hits' = hs
+        /\ ng' = 0 /\ ntried' = ntried + 1 /\ UNCHANGED <<ga, ubis, top, pass>>
 
 \* diff, i, j = self.hits.pop()
 PopHit == /\ cur # <<>> /\ top = <<>> /\ hits # {} /\ ng < MAXGRAINS
           /\ \E h \in hits : top' = h /\ hits' = hits \ {h}
-          /\ UNCHANGED <<ga, ubis, pairs, cur, ng>>
+          /\ UNCHANGED <<ga, ubis, pairs, cur, ng, pass, ntried>>
 Scoring == cur # <<>> /\ top # <<>>
 Top == top
 Pop == top' = <<>> /\ UNCHANGED hits
@@ -88,38 +122,52 @@ Unassigned(c) == Cardinality({p \in Idx[c] : ga[p] = -1})
 UniqueEnough(c) == Unassigned(c) * UNIQ_DEN > UNIQ_NUM * Cardinality(Idx[c])
 
 PopSkip == /\ Scoring /\ (ga[Top[1]] > -1 \/ ga[Top[2]] > -1 \/ Top[1] = Top[2])
-           /\ Pop /\ UNCHANGED <<ga, ubis, pairs, cur, ng>>
+           /\ Pop /\ UNCHANGED <<ga, ubis, pairs, cur, ng, pass, ntried>>
 Live == Scoring /\ ga[Top[1]] = -1 /\ ga[Top[2]] = -1 /\ Top[1] # Top[2]
-PopLow == /\ Live /\ (IF Cand(Top[1], Top[2]) = 0 THEN TRUE ELSE Score[Cand(Top[1], Top[2])] <= MINPKS)
-          /\ Pop /\ UNCHANGED <<ga, ubis, pairs, cur, ng>>
+PopLow == /\ Live /\ (IF Cand(Top[1], Top[2]) = 0 THEN TRUE ELSE ScoreAt(Cand(Top[1], Top[2]), pass) <= MinP(pass))
+          /\ Pop /\ UNCHANGED <<ga, ubis, pairs, cur, ng, pass, ntried>>
 PopReject == /\ Live /\ Cand(Top[1], Top[2]) # 0
-             /\ LET c == Cand(Top[1], Top[2]) IN Score[c] > MINPKS /\ ~UniqueEnough(c)
-             /\ Pop /\ UNCHANGED <<ga, ubis, pairs, cur, ng>>
+             /\ LET c == Cand(Top[1], Top[2]) IN ScoreAt(c, pass) > MinP(pass) /\ ~UniqueEnough(c)
+             /\ Pop /\ UNCHANGED <<ga, ubis, pairs, cur, ng, pass, ntried>>
 PopAccept == /\ Live /\ Cand(Top[1], Top[2]) # 0
              /\ LET c == Cand(Top[1], Top[2])
-                IN /\ Score[c] > MINPKS /\ UniqueEnough(c)
+                IN /\ ScoreAt(c, pass) > MinP(pass) /\ UniqueEnough(c)
                    /\ ga' = [p \in Peaks |-> IF p \in Idx[c] THEN Len(ubis) + 1 ELSE ga[p]]
-                   /\ ubis' = Append(ubis, c)
-             /\ ng' = ng + 1 /\ Pop /\ UNCHANGED <<pairs, cur>>
+                   /\ ubis' = Append(ubis, <<c, pass>>)
+             /\ ng' = ng + 1 /\ Pop /\ UNCHANGED <<pairs, cur, pass, ntried>>
 EndScore == /\ cur # <<>> /\ top = <<>> /\ (hits = {} \/ ng >= MAXGRAINS)
-            /\ cur' = <<>> /\ hits' = {} /\ UNCHANGED <<ga, ubis, top, pairs, ng>>
+            /\ cur' = <<>> /\ hits' = {} /\ UNCHANGED <<ga, ubis, top, pairs, ng, pass, ntried>>
+\* index() / do_index(): the next (minpks, hkl_tol) setting on the SAME indexer: ga and ubis are kept
+PassDone == cur = <<>> /\ (pairs = {} \/ Capped)
+NextPass == /\ PassDone /\ pass < NPASS
+            /\ pass' = pass + 1 /\ pairs' = AllPairs /\ ntried' = 0
+            /\ UNCHANGED <<ga, ubis, hits, top, cur, ng>>
 
-Next == Find \/ PopHit \/ PopSkip \/ PopLow \/ PopReject \/ PopAccept \/ EndScore
+Next == Find \/ PopHit \/ PopSkip \/ PopLow \/ PopReject \/ PopAccept \/ EndScore \/ NextPass
 Spec == Init /\ [][Next]_vars /\ WF_vars(Next)
 
 \* ---- properties --------------------------------------------------------------------------------
 GaRange == \A p \in Peaks : ga[p] = -1 \/ ga[p] \in 1..Len(ubis)
-AcceptedScore == \A k \in 1..Len(ubis) : Score[ubis[k]] > MINPKS
+AcceptedScore == \A k \in 1..Len(ubis) : ScoreAt(ubis[k][1], ubis[k][2]) > MinP(ubis[k][2])
 GrainCap == ng <= MAXGRAINS
+PairCap == NCAP > 0 => ntried <= NCAP + 1
 \* no two accepted orientations describe the same lattice
-NoRepeat == \A a, b \in 1..Len(ubis) : a # b => Class[ubis[a]] # Class[ubis[b]]
+NoRepeat == \A a, b \in 1..Len(ubis) : a # b => Class[ubis[a][1]] # Class[ubis[b][1]]
 \* a later grain may take over peaks, but every peak of an accepted grain stays with some grain
-OwnPeaksKept == \A k \in 1..Len(ubis) : \A p \in Idx[ubis[k]] : ga[p] > -1
-Finished == pairs = {} /\ cur = <<>>
+OwnPeaksKept == \A k \in 1..Len(ubis) : \A p \in Idx[ubis[k][1]] : ga[p] > -1
+Finished == PassDone /\ pass = NPASS
 Termination == <>Finished
-\* ideal data: a true grain with a hit made of two peaks that only it indexes is found
+\* ideal data: a true grain that scores above the minimum of some pass and owns a hit nothing else explains, on a
+\* permitted ring pair, is found.  closest mode: some peak of its own has only partners that propose this lattice
 Exclusive(c) == {p \in Idx[c] : \A d \in 1..NC : (Class[d] # Class[c] /\ True_[d]) => p \notin Idx[d]}
-Completeness == (Finished /\ ~NOISY) =>
-   \A c \in 1..NC : (True_[c] /\ Score[c] > MINPKS /\ \E i, j \in Exclusive(c) : i # j /\ Ring[i] # Ring[j])
-                     => \E k \in 1..Len(ubis) : Class[ubis[k]] = Class[c]
+Findable(c) ==
+   IF ALLHITS
+   THEN \E i, j \in Exclusive(c) : i # j /\ <<Ring[i], Ring[j]>> \in PAIRS
+   ELSE \E i \in Exclusive(c) : \E r2 \in 1..NR :
+          /\ <<Ring[i], r2>> \in PAIRS
+          /\ {j \in Active : Ring[j] = r2 /\ j # i /\ Cand(i, j) # 0} # {}
+          /\ \A j \in Active : (Ring[j] = r2 /\ j # i /\ Cand(i, j) # 0) => Class[Cand(i, j)] = Class[c]
+Completeness == (Finished /\ ~NOISY /\ NCAP = 0) =>
+   \A c \in 1..NC : (True_[c] /\ (\E p \in 1..NPASS : ScoreAt(c, p) > MinP(p)) /\ Findable(c))
+                     => \E k \in 1..Len(ubis) : Class[ubis[k][1]] = Class[c]
 =============================================================================
